@@ -52,8 +52,15 @@ static Skinny64ParallelECBVtable_t const skinny64_parallel_ecb_vec128 = {
 int skinny64_parallel_ecb_init(Skinny64ParallelECB_t *ecb)
 {
     Skinny64Key_t *ctx;
-    if ((ctx = calloc(1, sizeof(Skinny64Key_t))) == NULL)
+    if (!ecb)
         return 0;
+    if ((ctx = calloc(1, sizeof(Skinny64Key_t))) == NULL) {
+        /* Leave the object inert so that it is safe to pass to the
+           cleanup function or to any other function */
+        ecb->vtable = 0;
+        ecb->ctx = 0;
+        return 0;
+    }
     ecb->vtable = 0;
     ecb->ctx = ctx;
     ecb->parallel_size = 8 * SKINNY64_BLOCK_SIZE;
